@@ -334,11 +334,11 @@ def run25(ctx):
                          invs=GINV, k=6, i=ctx.seed % 6, siblings=True)
         else:
             cases = gen(ctx, "GEN_GraphGc_3u.cfg", n=3, maxhidden=3, provides=False, upper=True, emit="all", spec="SpecGc", invs=GINV)
-            k = 29
+            k = 61
             cases += gen(ctx, "GEN_GraphGc_4s.cfg", n=4, maxhidden=2, provides=False, upper=False, emit="all", spec="SpecGc",
                          invs=GINV, k=k, i=ctx.seed % k)
             cases += gen(ctx, "GEN_GraphGc_3sib.cfg", n=3, maxhidden=1, provides=False, upper=False, emit="all", spec="SpecGc",
-                         invs=GINV, siblings=True)
+                         invs=GINV, siblings=True, k=3, i=ctx.seed % 3)
         ctx.exhaustive = True
     for i, c in enumerate(cases):
         c["id"] = i
@@ -394,7 +394,7 @@ def _write_repo(ctx, c, tag, gc_mech=None):
     if gc_mech == "kept-label":
         cfg += "[gc]\nkeeplabel = keepme\n"
     elif gc_mech == "gc.keep" and marked:
-        cfg += "[gc]\n" + "".join("keep = //p%s\n" % m for m in marked)
+        cfg += "[gc]\n" + "".join("keep = \"//p%s\"\n" % m for m in marked)   # quoted: `#` starts a comment otherwise
     with open(os.path.join(root, ".plzconfig"), "w") as f:
         f.write(cfg)
     pre = "T" if c.get("up") else "t"
